@@ -194,5 +194,40 @@ func vfLongTexts(thorough bool) [][2]string {
 			}
 		}
 	}
+	join := func(l []string) string { return strings.Join(l, "\n") }
+	// texts that differ only in HOW OFTEN a line is repeated (runs of 1..12 equal lines, alone and between other lines)
+	for n := 1; n <= 12; n++ {
+		for _, d := range []int{1, 2} {
+			a, b := make([]string, n), make([]string, n+d)
+			for i := range a {
+				a[i] = "same"
+			}
+			for i := range b {
+				b[i] = "same"
+			}
+			out = append(out, [2]string{join(a), join(b)}, [2]string{join(b), join(a)})
+			wa := append(append([]string{"head"}, a...), "tail")
+			wb := append(append([]string{"head"}, b...), "tail")
+			out = append(out, [2]string{join(wa), join(wb)}, [2]string{join(wb), join(wa)})
+		}
+	}
+	// a record-shaped text of more than 200 lines: a popular line that keeps recurring AFTER other lines were first seen
+	for _, items := range []int{99, 100, 130} {
+		var base []string
+		base = append(base, "users:")
+		for i := 0; i < items; i++ {
+			base = append(base, "  - id: "+strconv.Itoa(i), "    active: true")
+		}
+		for _, p := range []int{1, len(base) / 2, len(base) - 2} {
+			if p%2 == 0 {
+				p--
+			}
+			ch := append([]string{}, base...)
+			ch[p] = "  - id: changed"
+			out = append(out, [2]string{join(base), join(ch)}, [2]string{join(ch), join(base)})
+		}
+		del := append(append([]string{}, base[:40]...), base[41:]...)
+		out = append(out, [2]string{join(base), join(del)}, [2]string{join(del), join(base)})
+	}
 	return out
 }
